@@ -278,8 +278,15 @@ func (q *Tagged) Push(files []sts.Hashed) {
 		}
 		if orig, ok := q.byFile[file.GetName()]; ok {
 			// If a file by this name is already here, let's start over
+			prev := orig.prev
 			q.removeFile(orig)
 			orig.unlink()
+			if q.headFile[group.name] == nil && prev != nil {
+				// This was the only file left in the list; keep its (already
+				// sent) predecessor as the head file so the file that replaces
+				// it still announces the right predecessor
+				q.headFile[group.name] = prev
+			}
 			list := q.list[group.name]
 			// Have to brute force this since the list may not be sorted by
 			// name
